@@ -104,7 +104,9 @@ CHECKS = {
         "observations, same order, same terminating exception type - the post-filter of a selector-less read; "
         "matching must not change the record, must be repeatable, and a reused selector object must give the results "
         "of fresh selectors over the sequence, its reverse and a generated permutation.",
-        "Selector semantics themselves are C07/C08; Avro and CSV runs use a single descriptor.",
+        "Selector semantics themselves are C07/C08 (stream records are additionally cross-checked against the reference "
+        "evaluator to expose state shared by all selector objects); Avro and CSV runs use a single descriptor; JSON "
+        "is read with and without descriptors; empty selectors are enumerated.",
         "DESIGN.md 4/C10",
     ),
     "C11": (
@@ -117,7 +119,8 @@ CHECKS = {
         "standard decompressor plus the reference codec / fastavro must recover the written records, and every access "
         "way must return equal records through the expected adapter. Generated garbage must be refused with an error "
         "and yield no record.",
-        "Standard decompressor = the Python bindings present; avro cells restricted to avro-mappable types.",
+        "Standard decompressor = the Python bindings present; avro cells restricted to avro-mappable types. Part "
+        "'interleaved' reads 2-3 open sources of one codec alternately (readers must not share decoder state).",
         "DESIGN.md 4/C11",
     ),
     "C05": (
@@ -129,7 +132,9 @@ CHECKS = {
         "that a failed operation left the whole record's deep observation unchanged, that every slot is unset or an "
         "instance of its declared type (list elements of the element type, timestamps aware, ranges respected, "
         "digest components well-formed) and that the record can be packed.",
-        "Wrong-kind inputs the statement does not name may go either way; record/dynamic are pass-through types.",
+        "Wrong-kind inputs the statement does not name may go either way; record/dynamic are pass-through types. "
+        "Candidates include existing field values / typed lists of related types (seeded change C05) and "
+        "whitespace-laden digests (seeded change C05-r2).",
         "DESIGN.md 4/C05",
     ),
     "C06": (
@@ -143,7 +148,8 @@ CHECKS = {
         "ones must yield a record with exactly the declared + reserved slots whose version/generated stamping works, "
         "and every source text handed to exec must match an AST allow-list.",
         "Quick tier samples 1/16 of the length-3 strings; the monitors shadow module attributes of flow.record.base "
-        "from the check process.",
+        "from the check process. Further enumerated parts: derived-type-names (every near miss of a whitelisted "
+        "type name), template-identifiers, reserved-field-positions.",
         "DESIGN.md 4/C06",
     ),
     "C12": (
@@ -155,7 +161,9 @@ CHECKS = {
         "show to be clearly different (must be unequal unless the field is ignored, then equal with equal hash), with a "
         "same-values record of another descriptor and with non-records; ==, != and hash must never raise; the "
         "ignored-field configuration must be restored after every scope exit, nested and by exception.",
-        "Grey pairs (0.0/-0.0, NaN, one instant under two offsets) are never used as 'equal' or 'different' evidence.",
+        "Grey pairs (0.0/-0.0, NaN, one instant under two offsets) are never used as 'equal' or 'different' evidence. "
+        "Half of the copies are rebuilt after the record-class cache was cleared (equality must not depend on class "
+        "identity).",
         "DESIGN.md 4/C12",
     ),
     "C13": (
